@@ -76,17 +76,22 @@ def make_table(src):
     ks = set(key)
     cand = [i + 1 for i, (r, t) in enumerate(ents) if rem[i] and core_area(kind, r) and i + 1 not in ks]
     rest = [i + 1 for i, (r, t) in enumerate(ents) if rem[i] and not core_area(kind, r) and i + 1 not in ks]
+    # classes: the same attribute of different instances = same path once digit runs (and PCI bus addresses) are erased;
+    # at least two members; those with a member in the core area first (ncore of them), then the others
     cls = {}
     for i, (r, t) in enumerate(ents):
         if rem[i]:
-            cls.setdefault(re.sub(r"\d+", "#", r), []).append(i + 1)
-    # classes: at least two members, at least one of them in the core area
-    cs = set(cand)
-    classes = [(k, v) for k, v in sorted(cls.items()) if len(v) >= 2 and any(x in cs for x in v)]
+            k = re.sub(r"[0-9a-f]{4}:[0-9a-f]{2}:[0-9a-f]{2}\.[0-9a-f]", "@", r)
+            cls.setdefault(re.sub(r"\d+", "#", k), []).append(i + 1)
+    cs = set(cand) | ks
+    multi = [(k, v) for k, v in sorted(cls.items()) if len(v) >= 2]
+    core_classes = [(k, v) for k, v in multi if any(x in cs for x in v)]
+    rest_classes = [(k, v) for k, v in multi if not any(x in cs for x in v)]
+    classes = core_classes + rest_classes
     # share of the per-snapshot budget: every removal from a CPUID dump but the key ones makes hwloc refuse the dump as a whole
     w = 25 if kind == "x86" else 100
-    return {"id": src["id"], "kind": kind, "np": len(ents), "removable": rem, "key": key, "cand": cand, "rest": rest, "w": w,
-            "classes": [v for k, v in classes]}, ents, [k for k, v in classes]
+    return {"id": src["id"], "kind": kind, "np": len(ents), "removable": rem, "type": [t for r, t in ents], "last": [r[-1] for r, t in ents], "key": key, "cand": cand, "rest": rest, "w": w,
+            "classes": [v for k, v in classes], "ncore": len(core_classes)}, ents, [k for k, v in classes]
 
 
 # ---------------------------------------------------------------- TLC model runs
@@ -104,7 +109,7 @@ def tla(v):
     raise TypeError(v)
 
 
-CONSTS = ["TableFile", "Sel", "NKeys", "NSingles", "NRest", "NClasses", "PairMax", "Seed", "FlagSeqs", "CfgStride", "SimMode", "SimMax"]
+CONSTS = ["TableFile", "Sel", "NKeys", "NSingles", "NRest", "NClasses", "NRClasses", "PairMax", "Seed", "FlagSeqs", "CfgStride", "SimMode", "SimMax"]
 
 
 def gen_module(c):
@@ -380,16 +385,16 @@ def run(ctx, replay=None):
             f.write(json.dumps(tab) + "\n")
     nsnap = len(srcs)
     base = {"TableFile": tf, "Sel": set(range(1, nsnap + 1)), "Seed": ctx.seed, "SimMode": False, "SimMax": 40,
-            "FlagSeqs": {(0, 1)}, "PairMax": 0, "CfgStride": 2, "NKeys": 5, "NSingles": 6, "NRest": 2, "NClasses": 8}
+            "FlagSeqs": {(0, 1)}, "PairMax": 0, "CfgStride": 2, "NKeys": 5, "NSingles": 6, "NRest": 3, "NClasses": 8, "NRClasses": 3}
     hists = []
     if not thorough:
         hists += run_model(ctx, base, "enum")
         sim = dict(base, SimMode=True)
         hists += run_model(ctx, sim, "sim", simulate="num=%d" % (2 * nsnap), depth=16, workers=1)
     else:
-        c = dict(base, NKeys=40, NSingles=30, NRest=10, NClasses=40, CfgStride=4, FlagSeqs={(0, 1), (896, 897)})
+        c = dict(base, NKeys=40, NSingles=30, NRest=20, NClasses=40, NRClasses=25, CfgStride=4, FlagSeqs={(0, 1), (896, 897)})
         hists += run_model(ctx, c, "enum")
-        c = dict(base, NKeys=0, NSingles=0, NRest=0, NClasses=0, PairMax=60, CfgStride=8)
+        c = dict(base, NKeys=0, NSingles=0, NRest=0, NClasses=0, NRClasses=0, PairMax=60, CfgStride=8)
         hists += run_model(ctx, c, "pairs")
         sim = dict(base, SimMode=True, FlagSeqs={(0, 1), (896, 897), (1, 0)})
         hists += run_model(ctx, sim, "sim", simulate="num=%d" % (12 * nsnap), depth=16, workers=1)
